@@ -35,7 +35,7 @@ ASSUMPTIONS = [
 ]
 PROBES = ["remove_0d", "remove_with_interfaces", "remove_highest_dim", "remove_last_subdomain", "replace_by_copy", "replace_1d_refined", "replace_0d",
           "replace_mortar_sides", "add_several_at_once", "codim0_interface", "codim2_interface", "two_subdomains_same_dim", "only_0d_left_boundaries_raises",
-          "rejected_existing_grid", "rejected_existing_interface", "rejected_codim3", "meshed_start", "empty_start", "ge_5_subdomains", "replace_both_ends_in_one_call", "meshed_start_3d", "observation_sparse", "observation_end"]
+          "rejected_existing_grid", "rejected_existing_interface", "rejected_codim3", "meshed_start", "empty_start", "ge_5_subdomains", "replace_both_ends_in_one_call", "meshed_start_3d", "observation_sparse", "observation_end", "pair_list_reused_by_caller"]
 
 
 def new_grid(dim: int):
@@ -120,6 +120,12 @@ def run_history_c24(ch, tr: Trace) -> None:
         got_i = real_call("interfaces()", lambda: mdg.interfaces())
         if len(got_i) != len(exp_i) or any(a is not b for a, b in zip(got_i, exp_i)):
             raise Violation("interfaces_listed_once_sorted", f"after {where}: interfaces() = {[lab(g) for g in got_i]}, expected {[lab(g) for g in exp_i]}", "interface_listing" + sfx)
+        # the lists handed out belong to the caller, who may edit them (compose a selection by removing entries)
+        if isinstance(got_s, list):
+            got_s.clear()
+        if isinstance(got_i, list):
+            got_i.reverse()
+            del got_i[:1]
         for d in range(4):
             g_d = real_call(f"subdomains(dim={d})", lambda: mdg.subdomains(dim=d))
             e_d = [g for g in exp_s if g.dim == d]
@@ -150,6 +156,10 @@ def run_history_c24(ch, tr: Trace) -> None:
         for g in subs:
             e_if = sorted([i for i, (a, b) in pair.items() if a is g or b is g], key=key)
             g_if = real_call(f"subdomain_to_interfaces({lab(g)})", lambda: mdg.subdomain_to_interfaces(g))
+            if isinstance(g_if, list) and len(g_if) == len(e_if) and all(a is b for a, b in zip(g_if, e_if)):
+                g_if_seen = list(g_if)
+                g_if.clear()  # caller edits its copy
+                g_if = g_if_seen
             if len(g_if) != len(e_if) or any(a is not b for a, b in zip(g_if, e_if)):
                 raise Violation("subdomain_to_interfaces", f"after {where}: interfaces of {lab(g)} = {[lab(x) for x in g_if]}, expected {[lab(x) for x in e_if]}")
             neigh = [(b if a is g else a) for i, (a, b) in pair.items() if a is g or b is g]
@@ -227,7 +237,16 @@ def run_history_c24(ch, tr: Trace) -> None:
         side = new_grid(md)
         intf = pp.MortarGrid(md, {MortarSides.LEFT_SIDE: side}, primary_secondary=None, codim=cd)
         order = (a, b) if ch.flag() else (b, a)
-        mdg.add_interface(intf, order, sps.identity(1))
+        if ch.flag(1, 3):
+            # the pair is handed over as a list (accepted, the unit tests do it) which the caller reuses afterwards
+            scratch = list(order)
+            mdg.add_interface(intf, scratch, sps.identity(1))
+            scratch[ch.draw(2)] = None
+            if ch.flag():
+                scratch.reverse()
+            tr.probe("pair_list_reused_by_caller")
+        else:
+            mdg.add_interface(intf, order, sps.identity(1))
         hi, lo = sorted((a, b), key=key)
         pair[intf] = (hi, lo)
         data_id[intf] = id(mdg.interface_data(intf))
